@@ -107,7 +107,15 @@ func (l *List[T]) IsSorted(lt cmp.LessThan[T]) bool {
 //
 // The operation will modify the input list, replacing it with an new
 // list operation.
-func (l *List[T]) SortMerge(lt cmp.LessThan[T]) { *l = *mergeSort(l, lt) }
+func (l *List[T]) SortMerge(lt cmp.LessThan[T]) {
+	// mergeSort drains this list into a new one. Copying that list's
+	// header over this one would leave every element pointing at the
+	// temporary list (so that later removals and appends update its
+	// length, not ours): move the elements back instead.
+	if sorted := mergeSort(l, lt); sorted != l {
+		l.Extend(sorted)
+	}
+}
 
 // SortQuick sorts the list, by removing the elements, adding them
 // to a slice, and then using sort.SliceStable(). In many cases this
